@@ -192,9 +192,13 @@ Record handle := mkH { h_s : nat; h_id : str; h_cached : option json; h_cell : o
 Record cell := mkC { c_data : json; c_jobs : list nat }.
 (* [w_hd]: per handle, the job-document object it holds (Job._document; None = not created yet); shallow
    copies made afterwards share the object.  [w_ds]: the document objects (BufferedJSONAttrDict): the file
-   they were created for and their in-memory data (which is what a read returns when the file is gone). *)
+   they were created for and their in-memory data (which is what a read returns when the file is gone).
+   [w_locks]: the keys of synced_collections' process-wide lock registry of the state point class
+   (_StatePointDict._locks, keyed by file name): an entry is made when a _StatePointDict is constructed and is
+   MOVED to the new file name when one renames; every mutation of a state point first looks its file name up
+   there (KeyError when another object for the same file has renamed in the meantime). *)
 Record world := mkW { w_fs : fs; w_ss : list session; w_hs : list handle; w_cs : list cell; w_tr : list ev;
-                      w_hd : list (option nat); w_ds : list (path * json) }.
+                      w_hd : list (option nat); w_ds : list (path * json); w_locks : list path }.
 
 Definition dS := mkS [] [] false.
 Definition dH := mkH 0 [] None None false.
@@ -204,27 +208,33 @@ Definition getH (w : world) (i : nat) : handle := nth i (w_hs w) dH.
 Definition getC (w : world) (i : nat) : cell := nth i (w_cs w) dC.
 
 Definition set_fs (w : world) (f : fs) (e : list ev) : world :=
-  mkW f (w_ss w) (w_hs w) (w_cs w) (w_tr w ++ e) (w_hd w) (w_ds w).
+  mkW f (w_ss w) (w_hs w) (w_cs w) (w_tr w ++ e) (w_hd w) (w_ds w) (w_locks w).
 Definition set_S (w : world) (i : nat) (s : session) : world :=
-  mkW (w_fs w) (set_nth i s (w_ss w)) (w_hs w) (w_cs w) (w_tr w) (w_hd w) (w_ds w).
+  mkW (w_fs w) (set_nth i s (w_ss w)) (w_hs w) (w_cs w) (w_tr w) (w_hd w) (w_ds w) (w_locks w).
 Definition set_H (w : world) (i : nat) (h : handle) : world :=
-  mkW (w_fs w) (w_ss w) (set_nth i h (w_hs w)) (w_cs w) (w_tr w) (w_hd w) (w_ds w).
+  mkW (w_fs w) (w_ss w) (set_nth i h (w_hs w)) (w_cs w) (w_tr w) (w_hd w) (w_ds w) (w_locks w).
 Definition set_C (w : world) (i : nat) (c : cell) : world :=
-  mkW (w_fs w) (w_ss w) (w_hs w) (set_nth i c (w_cs w)) (w_tr w) (w_hd w) (w_ds w).
+  mkW (w_fs w) (w_ss w) (w_hs w) (set_nth i c (w_cs w)) (w_tr w) (w_hd w) (w_ds w) (w_locks w).
 Definition add_S (w : world) (s : session) : world :=
-  mkW (w_fs w) (w_ss w ++ [s]) (w_hs w) (w_cs w) (w_tr w) (w_hd w) (w_ds w).
+  mkW (w_fs w) (w_ss w ++ [s]) (w_hs w) (w_cs w) (w_tr w) (w_hd w) (w_ds w) (w_locks w).
 Definition add_H (w : world) (h : handle) : world :=
-  mkW (w_fs w) (w_ss w) (w_hs w ++ [h]) (w_cs w) (w_tr w) (w_hd w ++ [None]) (w_ds w).
+  mkW (w_fs w) (w_ss w) (w_hs w ++ [h]) (w_cs w) (w_tr w) (w_hd w ++ [None]) (w_ds w) (w_locks w).
 Definition add_C (w : world) (c : cell) : world :=
-  mkW (w_fs w) (w_ss w) (w_hs w) (w_cs w ++ [c]) (w_tr w) (w_hd w) (w_ds w).
+  mkW (w_fs w) (w_ss w) (w_hs w) (w_cs w ++ [c]) (w_tr w) (w_hd w) (w_ds w) (w_locks w).
 Definition getHD (w : world) (h : nat) : option nat := nth h (w_hd w) None.
 Definition getD (w : world) (d : nat) : path * json := nth d (w_ds w) ([], JObj []).
 Definition set_HD (w : world) (h : nat) (o : option nat) : world :=
-  mkW (w_fs w) (w_ss w) (w_hs w) (w_cs w) (w_tr w) (set_nth h o (w_hd w)) (w_ds w).
+  mkW (w_fs w) (w_ss w) (w_hs w) (w_cs w) (w_tr w) (set_nth h o (w_hd w)) (w_ds w) (w_locks w).
 Definition set_D (w : world) (d : nat) (x : path * json) : world :=
-  mkW (w_fs w) (w_ss w) (w_hs w) (w_cs w) (w_tr w) (w_hd w) (set_nth d x (w_ds w)).
+  mkW (w_fs w) (w_ss w) (w_hs w) (w_cs w) (w_tr w) (w_hd w) (set_nth d x (w_ds w)) (w_locks w).
 Definition add_D (w : world) (x : path * json) : world :=
-  mkW (w_fs w) (w_ss w) (w_hs w) (w_cs w) (w_tr w) (w_hd w) (w_ds w ++ [x]).
+  mkW (w_fs w) (w_ss w) (w_hs w) (w_cs w) (w_tr w) (w_hd w) (w_ds w ++ [x]) (w_locks w).
+Definition lock_add (w : world) (p : path) : world :=
+  mkW (w_fs w) (w_ss w) (w_hs w) (w_cs w) (w_tr w) (w_hd w) (w_ds w) (p :: w_locks w).
+Definition lock_has (w : world) (p : path) : bool := existsb (path_eqb p) (w_locks w).
+Definition lock_move (w : world) (old new : path) : world :=
+  mkW (w_fs w) (w_ss w) (w_hs w) (w_cs w) (w_tr w) (w_hd w) (w_ds w)
+      (new :: filter (fun q => negb (path_eqb old q)) (w_locks w)).
 
 Definition wsp (s : session) : path := s_root s ++ [WS].
 Definition jobdir (w : world) (h : handle) : path := wsp (getS w (h_s h)) ++ [h_id h].
@@ -329,13 +339,13 @@ Section WS.
         let ci := length (w_cs w) in
         match h_cached h with
         | Some sp =>
-            let w1 := add_C w (mkC sp [hi]) in
+            let w1 := lock_add (add_C w (mkC sp [hi])) (spfile w h) in
             (set_H w1 hi (mkH (h_s h) (h_id h) (h_cached h) (Some ci) (h_dk h)), inl ci)
         | None =>
             match load_file w h with
             | inr e => (w, inr e)
             | inl v =>
-                let w1 := add_C w (mkC v [hi]) in
+                let w1 := lock_add (add_C w (mkC v [hi])) (spfile w h) in
                 let w2 := register w1 (h_s h) (h_id h) v in
                 (set_H w2 hi (mkH (h_s h) (h_id h) (Some v) (Some ci) (h_dk h)), inl ci)
             end
@@ -456,10 +466,13 @@ Section WS.
           match un with
           | FErr e => (w2, inr (FOs e))
           | FOk (f3, e3) =>
-              let w3 := set_fs w2 f3 e3 in
+              let w3 := lock_move (set_fs w2 f3 e3) fname (wsd ++ [new_id; SPF]) in
               if should_init then init susp false w3 (last (c_jobs c) 0%nat) else (w3, inl tt)
           end
       end.
+
+  (* self.filename of a cell: kept in step with its first job's (project, id) on every path modelled here *)
+  Definition cell_file (w : world) (ci : nat) : path := spfile w (getH w (hd 0%nat (c_jobs (getC w ci)))).
 
   Definition set_data (w : world) (ci : nat) (d : json) : world :=
     set_C w ci (mkC d (c_jobs (getC w ci))).
@@ -490,12 +503,17 @@ Section WS.
       | Some ci => (w, ci)
       | None =>
           let ci := length (w_cs w) in
-          (set_H (add_C w (mkC (JObj []) [hi])) hi (mkH (h_s h) (h_id h) (h_cached h) (Some ci) (h_dk h)), ci)
+          (set_H (lock_add (add_C w (mkC (JObj []) [hi])) (spfile w h)) hi
+                 (mkH (h_s h) (h_id h) (h_cached h) (Some ci) (h_dk h)), ci)
       end in
-    match cell_reset w1 ci new with
-    | (w2, inr e) => (w2, inr e)
-    | (w2, inl _) => let h2 := getH w2 hi in (register w2 (h_s h2) (h_id h2) new, inl tt)
-    end.
+    if lock_has w1 (cell_file w1 ci) then
+      match cell_reset w1 ci new with
+      | (w2, inr e) => (w2, inr e)
+      | (w2, inl _) => let h2 := getH w2 hi in (register w2 (h_s h2) (h_id h2) new, inl tt)
+      end
+    else
+      (* reset(): _update has already merged the new data in memory when _thread_lock raises KeyError *)
+      (set_data w1 ci (snd (upd_root (c_data (getC w1 ci)) new)), inr (FExn EKeyError)).
 
   (* Job.update_statepoint(update, overwrite) *)
   Definition update_statepoint (w : world) (hi : nat) (u : json) (overwrite : bool) : world * res unit :=
@@ -512,10 +530,12 @@ Section WS.
     match sp_access w hi with
     | (w1, inr e) => (w1, inr e)
     | (w1, inl ci) =>
-        match edit_sp p a (c_data (getC w1 ci)) with
-        | None => (w1, inr (FExn EKeyError))
-        | Some d' => sp_save false (set_data w1 ci d') ci
-        end
+        if lock_has w1 (cell_file w1 ci) then
+          match edit_sp p a (c_data (getC w1 ci)) with
+          | None => (w1, inr (FExn EKeyError))
+          | Some d' => sp_save false (set_data w1 ci d') ci
+          end
+        else (w1, inr (FExn EKeyError))      (* _load_and_save.__enter__: _locks[filename] *)
     end.
 
   (* project.open_job(statepoint) *)
@@ -1097,7 +1117,7 @@ Section WS.
     | _, _ => false
     end.
 
-  Definition w0 : world := mkW [] [] [] [] [] [] [].
+  Definition w0 : world := mkW [] [] [] [] [] [] [] [].
 
   (* ------------------------------------------------------------------ predicates used by the theorems *)
   (* a job directory that validates: directory, state point file present, parses, hashes to the name *)
